@@ -9,3 +9,8 @@ func VerifResetFamilyManager() {
 	_ = GetFamilyManager()
 	fManager = newFamilyManager()
 }
+
+// VerifFlushInFlight returns the number of flush requests the engine's flush checker has queued or running.
+func VerifFlushInFlight(e Engine) int32 {
+	return e.(*engine).dataFlushChecker.(*dataFlushChecker).flushInFlight.Load()
+}
